@@ -46,8 +46,10 @@ impl<'a> Src<'a> {
             (self.byte() as usize * n) >> 8
         } else if n <= 65536 {
             (self.u16() as usize * n) >> 16
-        } else {
+        } else if n as u64 <= 1 << 32 {
             ((self.u32() as u64 * n as u64) >> 32) as usize
+        } else {
+            ((self.u64() as u128 * n as u128) >> 64) as usize
         }
     }
     /// inclusive range
